@@ -20,15 +20,22 @@ META = dict(
 )
 
 
-def _stub_opt_library(run):
+def _stub_opt_library(run, require_gradient=False):
     from gemseo.algos.opt.base_optimization_library import BaseOptimizationLibrary, OptimizationAlgorithmDescription
     from gemseo.algos.opt.base_optimizer_settings import BaseOptimizerSettings
+
+    settings_cls = BaseOptimizerSettings
+    if require_gradient:
+        from gemseo.algos.opt.base_gradient_based_algorithm_settings import BaseGradientBasedAlgorithmSettings
+
+        class settings_cls(BaseOptimizerSettings, BaseGradientBasedAlgorithmSettings):  # noqa: N801
+            """Optimizer settings with the KKT tolerances of the gradient-based algorithms."""
 
     class StubOpt(BaseOptimizationLibrary):
         ALGORITHM_INFOS = {
             "Stub": OptimizationAlgorithmDescription(
                 algorithm_name="Stub", internal_algorithm_name="Stub", handle_equality_constraints=True,
-                handle_inequality_constraints=True, Settings=BaseOptimizerSettings)
+                handle_inequality_constraints=True, require_gradient=require_gradient, Settings=settings_cls)
         }
 
         def _run(self, problem, **settings):
@@ -119,9 +126,11 @@ def h_budget(ctx, cfg):
             else:
                 pb.constraints[0].evaluate(p)
 
-    lib = _stub_opt_library(run)
+    lib = _stub_opt_library(run, require_gradient=bool(cfg.get("kkt")))
     n_before = len(problem.database)
     settings = dict(max_iter=N, normalize_design_space=normalized, enable_progress_bar=False, log_problem=False)
+    if cfg.get("kkt"):
+        settings["kkt_tol_abs"] = cfg["kkt"]   # the KKT residual is computed at every point whose gradients are all recorded
     if cfg.get("tol"):
         settings.update(xtol_abs=cfg["tol"], ftol_abs=cfg["tol"], stop_crit_n_x=2)
     result = lib.execute(problem, **settings)
@@ -303,6 +312,8 @@ def configs(tier):
         out.append(("budget", dict(n=2, K=2, N=N, normalized=True, constraint=True)))
         out.append(("budget", dict(n=1, K=2, N=N, normalized=True, constraint=True, nan=True)))
         out.append(("budget", dict(n=1, K=3 if not quick else 2, N=N + 1, normalized=True, constraint=False, tol=0.25)))
+    for N in (1, 2, 3):
+        out.append(("budget", dict(n=1, K=2, N=N, normalized=True, constraint=False, kkt=0.25)))
     for reset in (True, False):
         for N in (1, 2, 3):
             out.append(("two_runs", dict(n=1, K=1, N=N, reset=reset)))
